@@ -66,6 +66,15 @@ func classesOf(c wcase, h history) []string {
 	if total > 4096 {
 		cl = append(cl, "output>4KiB")
 	}
+	if len(c.Sizes) > 64 {
+		cl = append(cl, "more_than_64_batches")
+	}
+	for _, n := range c.Sizes {
+		if n*c.SeqLen >= 65536 {
+			cl = append(cl, "chunk>=64KiB")
+			break
+		}
+	}
 	if c.Writer == "csv" && c.CSVAuto {
 		cl = append(cl, "csv_auto_columns")
 	}
@@ -248,7 +257,19 @@ func genControlled(t *rapid.T) wcase {
 		n = 0
 	}
 	c.SeqLen = rapid.SampledFrom([]int{1, 7, 59, 60, 61, 120, 300}).Draw(t, "seqlen")
-	c.Sizes = genSizes(t, n, []int{1, 1, 2, 3, 5, 17, 40})
+	big := []int{1, 1, 2, 3, 5, 17, 40}
+	switch rapid.IntRange(0, 15).Draw(t, "scale") {
+	case 0, 1: // a long history: a chunk may have to wait for more than a hundred others
+		if n > 0 {
+			n = rapid.IntRange(66, 300).Draw(t, "n_long")
+			big = []int{1, 1, 2}
+			c.SeqLen = rapid.SampledFrom([]int{7, 60}).Draw(t, "seqlen_long")
+		}
+	case 2: // some chunks far larger than any write buffer (64 KiB and more) next to tiny ones
+		big = []int{1, 1, 2, 260, 400}
+		c.SeqLen = 300
+	}
+	c.Sizes = genSizes(t, n, big)
 	c.Arrival = genArrival(t, n)
 	c.Gzip = c.Writer != "chunk" && rapid.Bool().Draw(t, "gzip")
 	c.Close = rapid.Bool().Draw(t, "close")
